@@ -19,9 +19,13 @@
 (*   Mux           muxed_spectral_information: ALL spectra (two or more) are re-assembled in frequency order *)
 (* j designates the (sub-)spectrum an operation acts on: between Demux and Mux each band is processed by    *)
 (* its own amplifier (Multiband_amplifier), otherwise there is one spectrum.                                 *)
+(* Launch creates TWO spectra from one description (the per-channel arrays a caller hands to the            *)
+(* constructor): the one that is driven through the operations and a twin that is kept as launched (the     *)
+(* other direction of a link described once, the reference of a what-if study).  Every spectrum owns its    *)
+(* books: nothing done to one spectrum reaches another one.                                                 *)
 (*                                                                                                          *)
 (* C01 clauses: Conservation, SharesInUnitInterval, GsnrIdentity, MuxDemuxLossless, DemuxMuxKeepLedger,      *)
-(*              SourceUntouched.                                                                            *)
+(*              SourceUntouched, TwinUntouched (the first three also on the twin).                          *)
 (* C02 clauses: KeepsOsnr, KeepsNli, LowersOsnr, LowersNli, NeverImprovesGsnr, OthersUntouched.              *)
 EXTENDS Rat, Sequences, FiniteSets
 
@@ -44,8 +48,9 @@ ASSUME /\ NCh \in Nat \ {0}
 VARIABLES parts,   \* sequence of spectra; a spectrum is a sequence of channel records [id, P, S, A, N]
           src,     \* the spectrum the sub-spectra were extracted from, as it was then (<<>> when there is one spectrum):
                    \* extraction does not consume its source, which stays usable (Multiband_amplifier, filter_si)
-          last     \* the operation that produced this state: [op, j, arg] (arg: per-channel vector or <<>>)
-vars == <<parts, src, last>>
+          last,    \* the operation that produced this state: [op, j, arg] (arg: per-channel vector or <<>>)
+          twin     \* a second spectrum built from the same launch description, never driven
+vars == <<parts, src, last, twin>>
 
 Chan  == 1..NCh
 NoArg == [c \in Chan |-> RZero]
@@ -61,7 +66,9 @@ NliCh(ch, r)   == LET keep == RSub(ROne, r)
 OnPart(ps, j, F(_)) == [ps EXCEPT ![j] = [k \in 1..Len(ps[j]) |-> F(ps[j][k])]]
 IdsOf(spec) == {spec[k].id : k \in 1..Len(spec)}
 
-Init == /\ parts = << [c \in Chan |-> [id |-> c, P |-> Launch[c], S |-> Launch[c], A |-> RZero, N |-> RZero]] >>
+Launched == [c \in Chan |-> [id |-> c, P |-> Launch[c], S |-> Launch[c], A |-> RZero, N |-> RZero]]
+Init == /\ parts = << Launched >>
+        /\ twin = Launched
         /\ src = <<>>
         /\ last = [op |-> "Launch", j |-> 0, arg |-> NoArg]
 
@@ -98,11 +105,13 @@ Mux == /\ Len(parts) >= 2
        /\ src' = <<>>
        /\ last' = [op |-> "Mux", j |-> 0, arg |-> NoArg]
 
-Next == \/ \E j \in 1..Len(parts) : \/ \E f \in ScaleArgs : Scale(j, f)
-                                    \/ \E a \in AseArgs : AddASE(j, a)
-                                    \/ \E r \in NliArgs : AddNLI(j, r)
-        \/ \E j \in 1..Len(parts) : \E M \in Splits : Demux(j, M)
-        \/ Mux
+\* no operation has the twin among the spectra it acts on
+Next == /\ \/ \E j \in 1..Len(parts) : \/ \E f \in ScaleArgs : Scale(j, f)
+                                       \/ \E a \in AseArgs : AddASE(j, a)
+                                       \/ \E r \in NliArgs : AddNLI(j, r)
+           \/ \E j \in 1..Len(parts) : \E M \in Splits : Demux(j, M)
+           \/ Mux
+        /\ UNCHANGED twin
 Spec == Init /\ [][Next]_vars
 
 -----------------------------------------------------------------------------
@@ -112,24 +121,25 @@ InvNli(ch)  == RDiv(ch.N, ch.S)                   \* 1 / SNR_NLI
 InvGsnr(ch) == RDiv(RAdd(ch.A, ch.N), ch.S)       \* 1 / GSNR
 
 All(ps)    == UNION {{ps[j][k] : k \in 1..Len(ps[j])} : j \in 1..Len(ps)}
+Every      == All(parts) \cup All(<<twin>>)                     \* every channel of every spectrum there is
 Led(ps, c) == CHOOSE ch \in All(ps) : ch.id = c                  \* the ledger of channel c wherever it is
 Touched    == IF last'.op \in {"Scale", "AddASE", "AddNLI"} THEN IdsOf(parts[last'.j]) ELSE {}
 
 TypeOK == /\ Len(parts) \in 1..MaxParts
-          /\ \A ch \in All(parts) : ch.id \in Chan /\ IsRat(ch.P) /\ IsRat(ch.S) /\ IsRat(ch.A) /\ IsRat(ch.N)
+          /\ \A ch \in Every : ch.id \in Chan /\ IsRat(ch.P) /\ IsRat(ch.S) /\ IsRat(ch.A) /\ IsRat(ch.N)
 
 -----------------------------------------------------------------------------
 (* C01 *)
 Conservation ==           \* signal + ASE + NLI is the channel power, i.e. the three shares add up to exactly 1
-    \A ch \in All(parts) : /\ RAdd(RAdd(ch.S, ch.A), ch.N) = ch.P
-                           /\ RAdd(RAdd(RDiv(ch.S, ch.P), RDiv(ch.A, ch.P)), RDiv(ch.N, ch.P)) = ROne
+    \A ch \in Every : /\ RAdd(RAdd(ch.S, ch.A), ch.N) = ch.P
+                       /\ RAdd(RAdd(RDiv(ch.S, ch.P), RDiv(ch.A, ch.P)), RDiv(ch.N, ch.P)) = ROne
 
 SharesInUnitInterval ==   \* each share lies in [0, 1] (and there is signal left: r < 1)
-    \A ch \in All(parts) : /\ RLt(RZero, ch.P) /\ RLt(RZero, ch.S)
-                           /\ \A x \in {ch.S, ch.A, ch.N} : RLeq(RZero, x) /\ RLeq(x, ch.P)
+    \A ch \in Every : /\ RLt(RZero, ch.P) /\ RLt(RZero, ch.S)
+                       /\ \A x \in {ch.S, ch.A, ch.N} : RLeq(RZero, x) /\ RLeq(x, ch.P)
 
 GsnrIdentity ==           \* 1/GSNR = 1/OSNR_ASE + 1/SNR_NLI
-    \A ch \in All(parts) : InvGsnr(ch) = RAdd(InvOsnr(ch), InvNli(ch))
+    \A ch \in Every : InvGsnr(ch) = RAdd(InvOsnr(ch), InvNli(ch))
 
 MuxDemuxLossless ==       \* every launched channel is present exactly once, each spectrum in frequency order
     /\ \A c \in Chan : Cardinality({<<j, k>> \in (1..Len(parts)) \X Chan : k <= Len(parts[j]) /\ parts[j][k].id = c}) = 1
@@ -140,6 +150,11 @@ MuxDemuxLossless ==       \* every launched channel is present exactly once, eac
 SourceUntouchedStep == (src # <<>> /\ last'.op # "Mux") => src' = src
 SourceUntouched == [][SourceUntouchedStep]_vars
 SourceIsWhole == src = <<>> <=> Len(parts) = 1
+
+\* two spectra built from one description do not share their books: whatever is done to one, the other stays as launched
+TwinUntouchedStep == twin' = twin
+TwinUntouched == [][TwinUntouchedStep]_vars
+TwinAsLaunched == twin = Launched
 
 DemuxMuxKeepLedgerStep == last'.op \in {"Demux", "Mux"} => \A c \in Chan : Led(parts', c) = Led(parts, c)
 DemuxMuxKeepLedger == [][DemuxMuxKeepLedgerStep]_vars       \* band split / merge neither creates nor loses power
